@@ -176,6 +176,32 @@ def _coded_overrun(kind_i, payload, cuts, overrun):
     return c08._content_coding(kind_i, payload, 0, cuts, False, overrun)
 
 
+
+def _uniform_pieces(kind_i, b1, b2, two_blocks, lead, step, real=False):
+    """The whole encoded body arrives `step` bytes at a time (step 1 = every byte on its own) after a first piece of `lead` bytes."""
+    kind = pick(_KINDS, kind_i)
+    blocks = [b1, b2] if two_blocks else [b1]
+    payload = b''.join(blocks)
+    data = zmodel.encode(kind, blocks, real)
+    lead = pick([0, 1, 2, 3], lead)
+    step = pick([1, 2, 3], step)
+    pieces = [data[:lead]] if lead else []
+    pos = lead
+    while pos < len(data):
+        pieces.append(data[pos:pos + step])
+        pos += step
+    try:
+        got = _run(_decoder(kind, real), [p for p in pieces if len(p) > 0])
+    except zmodel.OutOfModel:
+        return True
+    hit('decoded')
+    return got == payload
+
+
+def _uniform_pieces_real(kind_i, b1, b2, two_blocks, lead, step):
+    return _uniform_pieces(kind_i, b1, b2, two_blocks, lead, step, real=True)
+
+
 def _split_equals_oneshot_real(kind_i, b1, b2, two_blocks, c1, c2, c3):
     return _split_equals_oneshot(kind_i, b1, b2, two_blocks, c1, c2, c3, real=True)
 
@@ -315,6 +341,18 @@ HARNESSES = [
              'wpull/protocol/http/stream.py:Stream._flush_decompressor', 'wpull/protocol/http/stream.py:Stream._setup_decompressor'],
       doc='for gzip / zlib / raw deflate bodies (1-2 stored blocks, symbolic payload bytes) every way of cutting the encoded body into '
           '<=4 non-empty pieces (first piece of one byte included) yields, after flush, exactly the payload = the one-shot result'),
+    H('uniform_pieces', '_uniform_pieces', 'kind_i: int, b1: bytes, b2: bytes, two_blocks: bool, lead: int, step: int',
+      pre={'quick': ['0 <= kind_i <= 2 and len(b1) <= 1 and len(b2) <= 1 and 0 <= lead <= 3 and 0 <= step <= 2'],
+           'thorough': ['0 <= kind_i <= 2 and len(b1) <= 3 and len(b2) <= 2 and 0 <= lead <= 3 and 0 <= step <= 2']},
+      parts={t: [{'tag': k + '_s%d' % (st + 1), 'fix': {'kind_i': str(i), 'step': str(st)}} for i, k in enumerate(_KINDS) for st in range(3)]
+             for t in ('quick', 'thorough')},
+      timeout={'quick': 200, 'thorough': 1200}, replay_impl='_uniform_pieces_real',
+      samples=[(0, b'a', b'', False, 0, 0), (2, b'a', b'b', True, 1, 0), (1, b'', b'', False, 0, 1)], need=['decoded'],
+      funcs=['wpull/decompression.py:GzipDecompressor.decompress', 'wpull/decompression.py:DeflateDecompressor.decompress',
+             'wpull/decompression.py:SimpleGzipDecompressor.flush', 'wpull/protocol/http/stream.py:Stream._decompress_data',
+             'wpull/protocol/http/stream.py:Stream._flush_decompressor'],
+      doc='the encoded body (1-2 stored blocks, symbolic payload bytes) delivered in uniform pieces of 1, 2 or 3 bytes - every byte on its '
+          'own included, an unbounded number of pieces - after a first piece of 0-3 bytes decodes, after flush, to exactly the payload'),
     H('decoder_not_reused', '_decoder_not_reused', 'kind_i: int, p1: bytes, fr2: int, b2: bytes, cuts: List[int], raw2: bool',
       pre={'quick': ['0 <= kind_i <= 2 and len(p1) <= 1 and fr2 == 0 and len(b2) <= 1 and len(cuts) <= 1'],
            'thorough': ['0 <= kind_i <= 2 and len(p1) <= 2 and 0 <= fr2 <= 1 and len(b2) <= 3 and len(cuts) <= 3']},
